@@ -75,6 +75,7 @@ def run(ctx):
     # that the writer emits the music's event stream (delays included) is C16's stream rule, discharged here as well
     from . import c16
     c16.rule_stream(ctx, R="R-C17-W")
+    c16.rule_writers(ctx, R="R-C17-W")  # the same number of tracks, each with its own content: one MidiTrack per track
     ctx.floor("R-C17-W", 40)
     ctx.floor("R-C17-1", 12)
     ctx.floor("R-C17-2", 20)
